@@ -1,9 +1,82 @@
 import WzVerif.Driver.Proto
+import WzVerif.Model.Conditional
 namespace Wz.Driver.C11
-open Wz Wz.Proto
+open Wz Wz.Proto Wz.Cond
 
-/-- stub: no model commands yet -/
+def listArg (f : String → Option α) (s : String) : Option (List α) :=
+  if s == "[]" then some [] else (s.splitOn ",").mapM f
+
+def optStr := optArg unhexStr
+def optInt := optArg intArg
+
+def outInt (i : Int) : String := toString i
+
+def outTags (l : List (Option Str)) : String := outList (outOpt hexStr) l
+
+def outRange (r : Range) : String :=
+  hexStr r.units ++ ":" ++ outList (fun (b, e) => outInt b ++ ".." ++ outOpt outInt e) r.ranges
+
+def mkReq (range ifRange : Option Str) (ifRangeDate ims : Option Int) (inm im : Option Str) : CondReq :=
+  { range := range, ifRange := ifRange, ifRangeDate := ifRangeDate, ims := ims, inm := inm, im := im }
+
+def outBody (l : List Bytes) : String := outList hex l
+
 def handle : Handler
+  | "cond", [ign, range, ifRange, ifRangeDate, ims, inm, im, etag, lmSec, lmMicro] =>
+    match boolArg ign, optStr range, optStr ifRange, optInt ifRangeDate, optInt ims, optStr inm,
+        optStr im, optStr etag, optInt lmSec, natArg lmMicro with
+    | some ign, some range, some ifRange, some ifRangeDate, some ims, some inm, some im, some etag,
+        some lmSec, some lmMicro =>
+      some (outBool (isResourceModified (mkReq range ifRange ifRangeDate ims inm im) etag
+        (lmSec.map fun s => (s, lmMicro)) ign))
+    | _, _, _, _, _, _, _, _, _, _ => some badArgs
+  | "resp", [method, range, ifRange, ifRangeDate, ims, inm, im, etag, lm, clen, accept, chunks, seek, pass] =>
+    match unhexStr method, optStr range, optStr ifRange, optInt ifRangeDate, optInt ims, optStr inm,
+        optStr im, optStr etag, optInt lm, optInt clen, boolArg accept, listArg unhex chunks,
+        optArg natArg seek, boolArg pass with
+    | some method, some range, some ifRange, some ifRangeDate, some ims, some inm, some im, some etag,
+        some lm, some clen, some accept, some chunks, some seek, some pass =>
+      some (match respond method (mkReq range ifRange ifRangeDate ims inm im)
+          { etag := etag, lastModified := lm } clen accept chunks seek pass with
+        | none => "416"
+        | some o =>
+          "|".intercalate [toString o.status,
+            outOpt (fun (a, b, l) => outInt a ++ "-" ++ outInt b ++ "/" ++ outInt l) o.contentRange,
+            outOpt outInt o.contentLength,
+            if o.status == 206 then outBody o.body else hex o.body.flatten])
+    | _, _, _, _, _, _, _, _, _, _, _, _, _, _ => some badArgs
+  | "prange", [v] =>
+    match optStr v with
+    | some v => some (outOpt outRange (parseRangeHeader v))
+    | none => some badArgs
+  | "rfl", [v, len] =>
+    match optStr v, optInt len with
+    | some v, some len =>
+      some (match parseRangeHeader v with
+        | none => "noparse"
+        | some r => outOpt (fun (a, b) => outInt a ++ ".." ++ outInt b) (rangeForLength r len))
+    | _, _ => some badArgs
+  | "petags", [v] =>
+    match optStr v with
+    | some v =>
+      let e := parseEtags v
+      some (outTags e.strong ++ ";" ++ outTags e.weak ++ ";" ++ outBool e.star)
+    | none => some badArgs
+  | "unquote", [v] =>
+    match unhexStr v with
+    | some v => some (outOpt (fun (e, w) => hexStr e ++ ":" ++ outBool w) (unquoteEtag v))
+    | none => some badArgs
+  | "brv", [a, b, c] =>
+    match optInt a, optInt b, optInt c with
+    | some a, some b, some c => some (outBool (isByteRangeValid a b c))
+    | _, _, _ => some badArgs
+  | "rwrap", [chunks, start, len, seek] =>
+    match listArg unhex chunks, natArg start, natArg len, optArg natArg seek with
+    | some chunks, some start, some len, some seek =>
+      some (outBody (match seek with
+        | some b => rangeWrapSeek chunks.flatten b start len
+        | none => rangeWrapIter chunks start len))
+    | _, _, _, _ => some badArgs
   | _, _ => none
 
 end Wz.Driver.C11
